@@ -224,7 +224,7 @@ def pNode : P (Node Nat) := do
                     remembered := none, flag := false })
   else failure
 
-def pOp : P (Op Nat) := do
+def pOp1 : P (Op Nat) := do
   let t ← tok
   match t with
   | "sp" => do let p ← pNat; let v ← pNat; pure (.setParam p v)
@@ -242,9 +242,22 @@ def pOp : P (Op Nat) := do
   | "sb" => do let p ← pNat; let _kind ← pNat; pure (.rejectedMessage p)
   | _ => failure
 
+/-- an op with its repetition count: `sn p v k` = k consecutive updates of parameter `p` with the
+    same value `v` (Set / ApplyMessage), observed once after the last one -/
+def pOp : P (Op Nat × Nat) := do
+  let ts ← get
+  match ts with
+  | "sn" :: _ => do
+      let _ ← tok
+      let p ← pNat; let v ← pNat; let k ← pNat
+      pure (.setParam p v, k)
+  | _ => do let op ← pOp1; pure (op, 1)
+
 structure Case where
   nodes : Array (Node Nat)
   ops : List (Op Nat)
+  /-- repetition count of each op (1 except for `sn`) -/
+  reps : List Nat := []
   /-- the description contains a skipping processor (`K`): allowed only in the skip ops -/
   hasK : Bool := false
 
@@ -252,8 +265,9 @@ def pCase : P Case := do
   let before ← get
   let ns ← pList pNode
   let after ← get
-  let ops ← pList pOp
-  pure { nodes := ns.toArray, ops := ops, hasK := (before.take (before.length - after.length)).any (fun t => t == "K" || t == "W" || t == "N") }
+  let pairs ← pList pOp
+  let ops := pairs.map (·.1)
+  pure { nodes := ns.toArray, ops := ops, reps := pairs.map (·.2), hasK := (before.take (before.length - after.length)).any (fun t => t == "K" || t == "W" || t == "N") }
 
 /-- one observation block of the implementation's answer -/
 structure Block where
@@ -322,9 +336,17 @@ def stepBlock (arr : Array (Node Nat)) (op : Op Nat) : Array (Node Nat) × Strin
       let a1 := toArr N g1
       (a1, s!"ok {observe a1} x 0 y 0 |")
 
+/-- apply the model's `step?` `k` more times (the repeated updates of `sn`; no block printed) -/
+def stepN (arr : Array (Node Nat)) (op : Op Nat) : Nat → Array (Node Nat)
+  | 0 => arr
+  | k+1 =>
+    match step? (arr.size+1) (ofArr arr) op with
+    | some (g1, _) => stepN (toArr arr.size g1) op k
+    | none => arr
+
 def runHist (c : Case) : String :=
-  let r := c.ops.foldl (fun (acc : Array (Node Nat) × List String) op =>
-    let r := stepBlock acc.1 op
+  let r := (c.ops.zip c.reps).foldl (fun (acc : Array (Node Nat) × List String) (op, k) =>
+    let r := stepBlock (stepN acc.1 op (k - 1)) op
     (r.1, r.2 :: acc.2)) (c.nodes, [])
   " ".intercalate r.2.reverse
 
@@ -425,18 +447,18 @@ def holdsNoSpurious (c : Case) (bs : List Block) : Bool :=
     during the op (+1 for an accepted `sp j _`) -/
 def holdsVersion (c : Case) (bs : List Block) : Bool :=
   let N := c.nodes.size
-  let rec go (before : Array Nat) : List (Op Nat) → List Block → Bool
+  let rec go (before : Array Nat) : List (Op Nat × Nat) → List Block → Bool
     | [], [] => true
-    | op :: ops, b :: bs =>
+    | (op, k) :: ops, b :: bs =>
       let bump (j : Nat) : Nat := match op with
-        | .setParam p _ => if b.ok && p == j then 1 else 0
+        | .setParam p _ => if b.ok && p == j then k else 0
         | _ => 0
       b.n.size == N &&
       ((List.range N).all fun j =>
         b.n[j]?.getD 0 == before[j]?.getD 0 + b.x.count j + b.y.count j + bump j) &&
       go b.n ops bs
     | _, _ => false
-  go (Array.replicate N 0) c.ops bs
+  go (Array.replicate N 0) (c.ops.zip c.reps) bs
 
 def portNames : List String := ["A", "B", "C", "D", "E", "F"]
 def arrNames : List String := ["Xs", "Ys", "Zs", "Ws"]
